@@ -1,8 +1,29 @@
 import Clikit.Drv.Util
+import Clikit.Drv.C03
 import Clikit.Model.Switches
-/-! Driver entry of the switches model: `c09.create_io` (the decisions, and the option tokens they are read from). -/
+import Clikit.Model.App
+/-! Driver entries of the switches model: `c09.create_io` (the decisions, and the option tokens they
+are read from) and of the composed model of a whole run: `c09.app_run` (`App.runApp` on the command
+tree read from the REAL default application). -/
 namespace Clikit.Drv.C09
 open Lean Clikit.Drv Clikit.Switches
+
+def jIO (c : IOCfg) : Json :=
+  let ansi := match c.ansi with | .off => "off" | .forced => "forced" | .auto => "auto"
+  Json.mkObj [("ansi", .str ansi), ("verbosity", jNat c.verbosity), ("quiet", .bool c.quiet),
+              ("interactive", .bool c.interactive)]
+
+/-- a selected command and the args it got: name path, set arguments, set options
+(`Args.arguments(False)` / `Args.options(False)` in the canonical encoding of C01) -/
+def jSel (p : List Str × Clikit.Parser.Args) : Json :=
+  Json.mkObj [("path", jStrs p.1), ("args_set", C01.jPairs p.2.args), ("opts_set", C01.jPairs p.2.opts)]
+
+def jWhat : Clikit.App.What → Json
+  | .helpPage .app => Json.mkObj [("kind", .str "help"), ("target", .str "app")]
+  | .helpPage (.cmd p) => Json.mkObj [("kind", .str "help"), ("target", Json.mkObj [("cmd", jStrs p)])]
+  | .version => Json.mkObj [("kind", .str "version")]
+  | .ran p _ _ => Json.mkObj [("kind", .str "ran"), ("path", jStrs p)]
+  | .error e => Json.mkObj [("kind", .str "error"), ("err", .str e.name)]
 
 def handle (m : String) (j : Json) : Option (R Json) :=
   match m with
@@ -16,6 +37,30 @@ def handle (m : String) (j : Json) : Option (R Json) :=
                          -- what `hasTok` tests membership in: `RawArgs.option_tokens` of the real args (code points)
                          ("option_tokens", jList (fun (t : Str) => jList (fun (ch : Char) => jNat ch.toNat) t)
                             (Clikit.Tokenizer.optionTokens toks))]
+  | "c09.app_run" => some do
+      -- the composed model of `ConsoleApplication.run` on the tree read from the real application;
+      -- every abstract handler returns 0 or (`raises`) raises an `Exception`; the error report renders
+      let app ← (← fArr j "commands").toList.mapM C03.cmdOf
+      let toks ← (← fArr j "tokens").toList.mapM asChars
+      let cv ← C01.convOf j
+      let debug ← fBool j "debug"
+      let raises ← fBool j "raises"
+      let hs : Clikit.App.Handlers := fun _ _ =>
+        if raises then .raise { keyboardInterrupt := false, clikit := false, tag := 99 } else .ret Clikit.App.ret0
+      let env : Clikit.App.Env := { debug := debug, render := fun _ => true }
+      let r := Clikit.App.runApp env cv app hs toks
+      return Json.mkObj [
+        ("io", jIO r.io),
+        ("selected", jExcept jSel (Clikit.App.resolveCommand cv app toks)),
+        ("what", jWhat r.what),
+        ("status", jOpt jNat r.status),
+        ("escaped", .bool r.escaped.isSome),
+        ("reported", .bool r.reported),
+        ("invoked", jList jSel r.invoked),
+        -- the hypotheses about the tree the end-to-end theorems take, decided on the real tree
+        ("help_named", .bool (Clikit.App.helpNamedB app)),
+        ("wired", Json.mkObj [("-h", .bool (Clikit.Help.wiredB app (Clikit.Help.S "-h"))),
+                              ("--help", .bool (Clikit.Help.wiredB app (Clikit.Help.S "--help")))])]
   | _ => none
 
 end Clikit.Drv.C09
